@@ -28,7 +28,8 @@ open PsdVerif PsdVerif.Pixels PsdVerif.MergedPixels PsdVerif.PixelSamples
 `//` or `>>` is seen), the order of the steps of both `frompil`s, `_create_image` (raw modes, the lambda of
 `point` as the linear form PIL makes of it, the `convert` target), `_parse_array` (dtypes, divisors), every
 inversion with its guard — three `ImageChops.invert` under `mode == 'CMYK'`, none on the NumPy path —, the
-callers and the expression of the matte removal, as the model has them. -/
+callers and the expression of the matte removal, the depth and file version handed to the channel decoders, as
+the model has them. -/
 theorem samples_tied :
     Generated.PixelSamples.planeBody =
       ["if psd_file is not None and depth == 16: { return (np.asarray(band).astype('>u2') * 257).tobytes() }", "if psd_file is not None and depth == 32: { return (np.asarray(band).astype('>f4') / 255.0).astype('>f4').tobytes() }", "return band.tobytes()"] ∧
@@ -68,19 +69,25 @@ theorem samples_tied :
       ["image = post_process(image, alpha, icc)", "return _remove_white_background(image)"] ∧
     Generated.PixelSamples.parseArray =
       ["depth == 8: parsed = np.frombuffer(data, '>u1'); if lut is not None: { parsed = lut[parsed] }; return parsed.astype(np.float32) / 255.0", "depth == 16: return np.frombuffer(data, '>u2').astype(np.float32) / 65535.0", "depth == 32: return np.frombuffer(data, '>f4').astype(np.float32)", "depth == 1: return np.unpackbits(np.frombuffer(data, np.uint8)).astype(np.float32)", "else: raise ValueError('Unsupported depth: %g' % depth)"] ∧
+    Generated.PixelSamples.pilGetData =
+      ["convert_image_data_to_pil: psd._record.image_data.get_data(psd._record.header)", "_get_channel: channel_data.get_data(width, height, depth, layer._psd.version)"] ∧
+    Generated.PixelSamples.numpyGetData =
+      ["get_image_data: psd._record.image_data.get_data(psd._record.header, False)", "_find_channel: data.get_data(width, height, depth, version)"] ∧
     Generated.PixelSamples.parseRows =
       [(8, ["frombuffer:>u1", "astype:np.float32"], [("Div", (npDiv8 : Int), 1)], ["np.frombuffer", "astype"]), (16, ["frombuffer:>u2", "astype:np.float32"], [("Div", (npDiv16 : Int), 1)], ["np.frombuffer", "astype"]), (32, ["frombuffer:>f4", "astype:np.float32"], [], ["np.frombuffer", "astype"]), (1, ["frombuffer:np.uint8", "astype:np.float32"], [], ["np.frombuffer", "np.unpackbits", "astype"])] ∧
     Generated.PixelSamples.removeBackground =
       ["if psd.color_mode == ColorMode.RGB and data.shape[2] > 3 and has_transparency(psd): { color = data[:, :, :3]; index = get_transparency_index(psd) % data.shape[2]; alpha = data[:, :, index:index + 1]; a = np.repeat(alpha, color.shape[2], axis=2); color[a > 0] = (color + alpha - 1)[a > 0] / a[a > 0]; data[:, :, :3] = color }", "return data"] ∧
     Generated.PixelSamples.numpyConstMinus =
       [] :=
-  ⟨rfl, rfl, rfl, rfl, rfl, rfl, rfl, rfl, rfl, rfl, rfl, rfl, rfl, rfl, rfl, rfl, rfl, rfl, rfl, rfl, rfl, rfl⟩
+  ⟨rfl, rfl, rfl, rfl, rfl, rfl, rfl, rfl, rfl, rfl, rfl, rfl, rfl, rfl, rfl, rfl, rfl, rfl, rfl, rfl, rfl, rfl, rfl, rfl⟩
 
 /-! ### the laws of `Props/C07.lean` hold for the real arithmetic -/
 
 /-- the 8-bit / 16-bit / binary32 sample arithmetic satisfies `Px.LawfulAt` at every depth the pipeline
 handles: `ImageChops.invert` is an involution on samples, and `_create_image` undoes `plane()` -/
 theorem px_lawful_concrete : ∀ d ∈ depths, px.LawfulAt d := fun _ hd => px_lawfulAt hd
+
+example : (8 : Nat) ∈ depths ∧ (16 : Nat) ∈ depths ∧ (32 : Nat) ∈ depths := by decide
 
 /-- PIL's `convert`, modelled per pixel, has the laws the route theorems ask for -/
 theorem pil_lawful_concrete : pil.Lawful := pil_lawful
@@ -117,6 +124,8 @@ example : (77 : Nat) ≤ 255 := by decide
 /-- The variant `v << 8` of the 16-bit encoding is undone by the PIL export all the same … -/
 theorem shift_variant_pil (v : Nat) (hv : v ≤ 255) : pilLoad 16 (storeShift v) = some v :=
   load_storeShift hv
+
+example : (255 : Nat) ≤ 255 := by decide
 
 /-- … but not by the NumPy export: `(v << 8) / 65535 ≠ v / 255` (white comes back as 0.99611, and
 `round(numpy · 255)` is 254) — which is why the import multiplies by 257. -/
